@@ -50,6 +50,10 @@ def gen_case(rng: random.Random, tier: str) -> dict:
     world["files"]["tmpl/hdr.zot"] = TEMPLATE_HDR
     _add_earlier_mentions(rng, world)
     _add_lookalike_tags(rng, world)
+    if rng.random() < 0.08:
+        # a page with Windows line ends: "every other line unchanged" is about bytes
+        rel = rng.choice(sorted(p for p in world["files"] if p.endswith(".zo")))
+        world["files"][rel] = world["files"][rel].replace("\n", "\r\n")
     steps: list[dict] = []
     for _ in range(rng.randint(1, 4)):
         x = rng.random()
@@ -192,23 +196,23 @@ def judge_move(sim_before: dict, after_files: dict, note: dict, dest: str, dest_
     dcause = _dest_cause(dest_old_text)
     # locate the moved note: a first line starting with the kind char and containing the ZID as its own
     want_kind = marker or {None: "-", "OPEN_TODO": "o", "CLOSED_TODO": "x", "CANCELED_TODO": "~", "BLOCKED_TODO": "<", "PARENT_TODO": ">"}[note["status"]]
-    cont = body_lines[1:]
+    cont = [c.rstrip("\r") for c in body_lines[1:]]
     hits = []
     for k, line in enumerate(N):
         p = ob.split_item_line(line)
-        if p and p["zid"] == zid and N[k + 1 : k + 1 + len(cont)] == cont:
+        if p and p["zid"] == zid and [x.rstrip("\r") for x in N[k + 1 : k + 1 + len(cont)]] == cont:
             hits.append(k)
     if len(hits) != 1:
         return hist.viol("note-not-exactly-once-in-destination", dcause, page=dest, zid=zid, hits=hits, before=dest_old_text, after=d_new)
     k = hits[0]
-    first = N[k]
+    first = N[k].rstrip("\r")
     if first[0] != want_kind:
         return hist.viol("moved-note-kind-wrong", "-", first_line=first, want=want_kind)
     R = N[:k] + N[k + 1 + len(cont) :]
     if not _only_blank_difference(R, D, k):
         return hist.viol("destination-lines-changed", dcause, page=dest, before=dest_old_text, after=d_new, note_at=k + 1)
     # body: old first line text after the ZID must survive; tokens inserted directly after the ZID
-    old_first = body_lines[0]
+    old_first = body_lines[0].rstrip("\r")
     oi = old_first.find(zid)
     old_rest = old_first[oi + len(zid) :].strip()
     ni = first.find(zid)
@@ -407,6 +411,8 @@ def execute(case: dict, scratch: str) -> dict:
 
 def _move_probes(rec: hist.Rec, note: dict, before: dict, dest_old: Optional[str], st: dict) -> None:
     rec.probe("multi-line-note-moved", int("\n" in note["body"]))
+    rec.probe("crlf-source-page", int("\r\n" in before["files"][note["page"]]))
+    rec.probe("crlf-destination-page", int(dest_old is not None and "\r\n" in dest_old))
     s_old = before["files"][note["page"]].split("\n")
     c = _src_cause(s_old, note)
     rec.probe("zid-mentioned-elsewhere-on-source-page", int("mentioned" in c))
